@@ -9,6 +9,17 @@ TRUST = ('Trusted base: CPython interpreting the real pygyro source on proxy val
          'exact real arithmetic stands in for IEEE-754 doubles wherever reals occur (stated per check). ')
 
 CLAIMED = {
+    'C01': dict(
+        category='proof',
+        technique='concolic symbolic execution of the real LayoutHandler on bit-vector extents over a symbolic-shape numpy/MPI model; z3 element-wise queries (bounded)',
+        text='Bounded solver proof over symbolic extents: the real LayoutHandler code (constructor, swap-axis detection, '
+             'extract/Alltoall/rearrange, multi-step redirects with buffer parity) runs on bit-vector extents n_i in [p_i,N]; per '
+             'feasible path and rank z3 shows no in-range destination index holds anything but the global field value and (buffer '
+             'given) no source element changed; numpy/MPI errors on feasible paths are violations. Multi-step routes are verified '
+             'step by step (assume/guarantee on the intermediate state). Sat models are replayed on real numpy.',
+        design_ref='DESIGN.md 4 C01',
+        note=TRUST + 'Also trusted: lib/symnp.SymArr (numpy view model), lib/simmpi (MPI collective contract). Bounds: ranks 2-3 '
+                     '(thorough 2-4), N=4/3 (thorough 6/4/3), <=3 processes per direction; payload type abstracted.'),
     'C20': dict(
         category='proof',
         technique='concolic symbolic execution of the real Python function on z3 Int proxies; per-path SMT queries (bounded)',
